@@ -323,7 +323,9 @@ CORPUS = [
     # D12: a clone below a sibling of its first occurrence (x, y > x)
     dict(kind="load", typed=False, univ=["s:x", "s:y"], nodes=[[0, None, None, []], [1, None, None, [[0, None, None, []]]]], km="true", vm="true", mapper="none"),
     dict(kind="save", typed=False, univ=["s:x", "s:y"], nodes=[[0, None, None, []], [1, None, None, [[0, None, None, []]]]], km="true", vm="true", mapper="none"),
-    # D18: one data object under two explicit ids (not clones), and a real clone of the second
+    # D18: real clones of one object (default id) and, between them, the same object under an explicit id
+    dict(kind="save", typed=False, univ=["e:1", "s:r", "s:q"], nodes=[[0, None, None, []], [1, None, None, [[0, None, "x", []]]], [2, None, None, [[0, None, None, []]]]], km="false", vm="false", mapper="cb"),
+    dict(kind="load", typed=False, univ=["e:1", "s:r", "s:q"], nodes=[[0, None, None, []], [1, None, None, [[0, None, "x", []]]], [2, None, None, [[0, None, None, []]]]], km="false", vm="false", mapper="cb"),
     dict(kind="save", typed=False, univ=["e:1", "s:r"], nodes=[[0, None, "k1", []], [1, None, None, [[0, None, "k2", []]]], [0, None, "k2", []]], km="false", vm="false", mapper="cb"),
     dict(kind="load", typed=False, univ=["e:1", "s:r"], nodes=[[0, None, "k1", []], [1, None, None, [[0, None, "k2", []]]], [0, None, "k2", []]], km="false", vm="false", mapper="cb"),
     # D50: a str node of a typed tree with an explicit data_id
